@@ -2,6 +2,7 @@
 Helper lemmas for the C13 corollaries dist_self / dist_unit_eq_zero_iff / dist_unit_ge_length_diff.
 -/
 import PeroVerif.Spec.Lev
+import PeroVerif.Lemmas.Lev
 namespace Lev
 variable {α : Type} [DecidableEq α]
 
@@ -98,4 +99,124 @@ theorem zipAl_props (s t : List α) :
     · simp only [cost, List.map_cons, List.sum_cons, List.length_cons] at hc ⊢
       have : stepCost unit (some a, some b) ≤ 1 := by simp [stepCost, unit]; split <;> omega
       omega
+
+/-! ### line-end classification (C13.ending_total) -/
+
+/-- total version of `matchType`, for the proofs only -/
+def mtT (p : Option α × Option α) : MatchType := (matchType p).getD .C
+
+theorem matchTypes_wf (al : Alignment α) (hw : WellFormed al) : matchTypes al = some (al.map mtT) := by
+  induction al with
+  | nil => rfl
+  | cons p al ih =>
+    have hw' : WellFormed al := fun q hq => hw q (List.mem_cons_of_mem _ hq)
+    have hp := hw p List.mem_cons_self
+    rw [matchTypes, ih hw']
+    rcases p with ⟨_ | a, _ | b⟩
+    · exact absurd rfl hp
+    all_goals simp [matchType, mtT]
+
+theorem stepCost_of_nonC (p : Option α × Option α) (hp : p ≠ (none, none)) (h : mtT p ≠ .C) :
+    stepCost unit p = 1 := by
+  rcases p with ⟨_ | a, _ | b⟩
+  · exact absurd rfl hp
+  · simp [stepCost, unit]
+  · simp [stepCost, unit]
+  · by_cases hab : a = b
+    · subst hab; simp [mtT, matchType] at h
+    · simp [stepCost, unit, hab]
+
+theorem mtT_I (p : Option α × Option α) (h : mtT p = .I) : p.2 = none := by
+  rcases p with ⟨_ | a, _ | b⟩ <;> simp [mtT, matchType] at h ⊢
+  split at h <;> simp_all
+
+theorem mtT_D (p : Option α × Option α) (h : mtT p = .D) : p.1 = none := by
+  rcases p with ⟨_ | a, _ | b⟩ <;> simp [mtT, matchType] at h ⊢
+  split at h <;> simp_all
+
+theorem cost_nonC (suf : Alignment α) (hw : WellFormed suf) (h : ∀ p ∈ suf, mtT p ≠ .C) :
+    cost unit suf = suf.length := by
+  induction suf with
+  | nil => rfl
+  | cons p suf ih =>
+    have hw' : WellFormed suf := fun q hq => hw q (List.mem_cons_of_mem _ hq)
+    have := stepCost_of_nonC p (hw p List.mem_cons_self) (h p List.mem_cons_self)
+    have ih' := ih hw' (fun q hq => h q (List.mem_cons_of_mem _ hq))
+    simp only [cost, List.map_cons, List.sum_cons, List.length_cons] at ih' ⊢
+    omega
+
+theorem filterMap_length_lt {β γ : Type} (f : β → Option γ) (l : List β) (h : ∃ p ∈ l, f p = none) :
+    (l.filterMap f).length < l.length := by
+  induction l with
+  | nil => obtain ⟨p, hp, _⟩ := h; simp at hp
+  | cons x l ih =>
+    obtain ⟨p, hp, hf⟩ := h
+    have hle := List.length_filterMap_le f l
+    rcases List.mem_cons.mp hp with rfl | hp
+    · rw [List.filterMap_cons_none hf, List.length_cons]; omega
+    · have := ih ⟨p, hp, hf⟩
+      cases hx : f x with
+      | none => rw [List.filterMap_cons_none hx, List.length_cons]; omega
+      | some y => rw [List.filterMap_cons_some hx, List.length_cons, List.length_cons]; omega
+
+theorem boundaryClass_ok (b : List MatchType) (hC : ∀ m ∈ b, m ≠ .C) (hID : ¬(.I ∈ b ∧ .D ∈ b)) :
+    ∃ c, boundaryClass b = some c ∧ c ≠ .nothing := by
+  unfold boundaryClass
+  rw [if_neg hID]
+  cases b with
+  | nil => simp
+  | cons m r =>
+    have hm := hC m List.mem_cons_self
+    by_cases hS : MatchType.S ∈ m :: r <;> by_cases hD : MatchType.D ∈ m :: r <;>
+      by_cases hI : MatchType.I ∈ m :: r <;> simp only [hS, hD, hI, List.length_cons] <;> simp
+    cases m <;> simp_all
+
+
+/-- In an OPTIMAL well-formed alignment, the non-matching suffix never holds an insertion and a deletion together. -/
+theorem optimal_suffix_no_ins_del (s t : List α) (al : Alignment α) (hw : WellFormed al)
+    (hs : srcOf al = s) (ht : tgtOf al = t) (hc : cost unit al = dist unit s t) :
+    ¬(MatchType.I ∈ nonMatchSuffix (al.map mtT) ∧ MatchType.D ∈ nonMatchSuffix (al.map mtT)) ∧
+    ∀ m ∈ nonMatchSuffix (al.map mtT), m ≠ .C := by
+  let q : Option α × Option α → Bool := fun p => decide (mtT p ≠ .C)
+  let suf := (al.reverse.takeWhile q).reverse
+  let pre := (al.reverse.dropWhile q).reverse
+  have hal : al = pre ++ suf := by
+    have := List.takeWhile_append_dropWhile (p := q) (l := al.reverse)
+    have h2 := congrArg List.reverse this
+    rw [List.reverse_append, List.reverse_reverse] at h2
+    exact h2.symm
+  have hsuf : nonMatchSuffix (al.map mtT) = suf.map mtT := by
+    simp only [nonMatchSuffix, nonMatchPrefix, ← List.map_reverse, List.takeWhile_map, suf, q]
+    rfl
+  have hnc : ∀ p ∈ suf, mtT p ≠ .C := by
+    intro p hp
+    have hp' : p ∈ al.reverse.takeWhile q := List.mem_reverse.mp hp
+    have hall := List.all_takeWhile (p := q) (l := al.reverse)
+    have := List.all_eq_true.mp hall p hp'
+    simpa [q] using this
+  rw [hsuf]
+  refine ⟨?_, ?_⟩
+  · rintro ⟨hI, hD⟩
+    obtain ⟨pI, hpI, hmI⟩ := List.mem_map.mp hI
+    obtain ⟨pD, hpD, hmD⟩ := List.mem_map.mp hD
+    have hwp : WellFormed pre ∧ WellFormed suf := wf_append.mp (hal ▸ hw)
+    have hcs := cost_nonC suf hwp.2 hnc
+    have h1 : (tgtOf suf).length < suf.length :=
+      filterMap_length_lt Prod.snd suf ⟨pI, hpI, mtT_I pI hmI⟩
+    have h2 : (srcOf suf).length < suf.length :=
+      filterMap_length_lt Prod.fst suf ⟨pD, hpD, mtT_D pD hmD⟩
+    obtain ⟨zw, zs, zt, zc⟩ := zipAl_props (srcOf suf) (tgtOf suf)
+    have hw' : WellFormed (pre ++ zipAl (srcOf suf) (tgtOf suf)) := wf_append.mpr ⟨hwp.1, zw⟩
+    have hs' : srcOf (pre ++ zipAl (srcOf suf) (tgtOf suf)) = s := by
+      rw [srcOf_append, zs, ← srcOf_append, ← hal, hs]
+    have ht' : tgtOf (pre ++ zipAl (srcOf suf) (tgtOf suf)) = t := by
+      rw [tgtOf_append, zt, ← tgtOf_append, ← hal, ht]
+    have hmin := (dist_isMin unit s t).2 _ hw' hs' ht'
+    rw [cost_append] at hmin
+    have hcal : cost unit al = cost unit pre + cost unit suf := by rw [hal, cost_append]
+    omega
+  · intro m hm
+    obtain ⟨p, hp, rfl⟩ := List.mem_map.mp hm
+    exact hnc p hp
+
 end Lev
